@@ -65,7 +65,7 @@ type fnReport struct {
 
 func (c *Ctx) verifyFunc(fn *ssa.Function, fc *FuncContract) (rep *fnReport) {
 	rep = &fnReport{Key: c.fnKey(fn)}
-	g := &FnGen{c: c, fn: fn, fc: fc, declOf: map[string]string{}, vals: map[ssa.Value]*Val{}, usedDropped: map[string]bool{}, usedExtern: map[string]bool{}}
+	g := &FnGen{c: c, fn: fn, fc: fc, declOf: map[string]string{}, vals: map[ssa.Value]*Val{}, usedDropped: map[string]bool{}, usedExtern: map[string]bool{}, closures: map[*ssa.MakeClosure][]capturedVar{}}
 	c.curFile = c.ctrFile[fc]
 	defer func() {
 		c.curFile = nil
